@@ -103,10 +103,11 @@ Theorem C02_jacobian_is_derivative (x0 : R) (v : var) (fprog : list fop) (jprog 
 Proof. exact (jacobian_is_derivative x0 v fprog jprog prog2 pd). Qed.
 Print Assumptions C02_jacobian_is_derivative.
 
-(* END TO END for the real operators (arrays translated from /repo): every sequence of T(c x + b, phi)
-   declared {v: {alpha: c}}, E(tau, T1, c x + b, g) declared {v: {T2: c}}, constant T / E and shifts
-   (with or without nmax): the Jacobian entry of diff.py's bookkeeping at x0 is the derivative at x0 of
-   the simulated signal with respect to x. *)
+(* END TO END.  A sequence of operators driven by one real variable x: MatrixOps with arrays F(c x + b)
+   and ScalarOps with (arr, arr0) = A(c x + b), each declared to diff.py as order1 = {v: {p: c}} with
+   derivative arrays D(c x + b); constant operators; shifts with or without nmax.  If D is the derivative of
+   the arrays at the point (item_ok), the Jacobian entry of diff.py's bookkeeping at x0 is the derivative
+   at x0 of the simulated signal with respect to x. *)
 Theorem C02_real_sequence_jacobian (x0 : R) (v : var) (items : list ritem) (pd : C) :
   List.Forall (item_ok x0) items ->
   let ds := drun (map (dop_of x0 v) items) (dinit (@init Cops pd)) in
@@ -116,12 +117,26 @@ Theorem C02_real_sequence_jacobian (x0 : R) (v : var) (items : list ritem) (pd :
 Proof. exact (real_sequence_jacobian x0 v items pd). Qed.
 Print Assumptions C02_real_sequence_jacobian.
 
-(* its side condition is met, e.g. by a B1-like variable scaling two pulses and a T2 variable at 50 ms *)
-Example C02_real_sequence_nonvacuous :
-  List.Forall (item_ok 50%R)
-    [RTv 1 0 30; RS 1 None; REv 8 1000 (1/100) 1 0; RTv 2 0 0; RS (-1) (Some 3%nat); REc 5 1000 50 0].
+(* ... and item_ok holds for the operators of the package, with the arrays TRANSLATED from /repo
+   (Gen/Transition.v, Gen/Evolution.v): T in alpha or phi, Phi, E in tau, T1, T2 or g, P in tau or g,
+   R in Re rT, rL or r0, driven affinely by x, plus constant T / E / P and shifts (real_item lists them
+   with the side conditions T1 <> 0, T2 <> 0 where the package divides by them). *)
+Theorem C02_real_operators_jacobian (x0 : R) (v : var) (items : list ritem) (pd : C) :
+  List.Forall (real_item x0) items ->
+  let ds := drun (map (dop_of x0 v) items) (dinit (@init Cops pd)) in
+  exists j : C, jacobian ds [v] = [j] /\
+    derC (fun x => f0 Cops (run (map (real_of x) items) (@init Cops pd))) x0 j /\
+    f0 Cops (d_main ds) = f0 Cops (run (map (real_of x0) items) (@init Cops pd)).
+Proof. exact (real_operators_jacobian x0 v items pd). Qed.
+Print Assumptions C02_real_operators_jacobian.
+
+(* its side conditions are met, e.g. by a B1-like variable scaling two pulses, or a T2 variable at 50 ms *)
+Example C02_real_operators_nonvacuous :
+  List.Forall (real_item 50%R)
+    [iT_alpha 1 0 30; RS 1 None; iE_T2 8 1000 (1/100) 1 0; iT_alpha 2 0 0; RS (-1) (Some 3%nat);
+     iE_const 5 1000 50 0; iP_g 3 (1/1000) 0; iT_phi 60 1 0].
 Proof.
-  repeat constructor; cbn [item_ok]; try exact I; try (apply Rgt_not_eq; Lra.lra); try Lra.lra.
+  repeat constructor; apply Rgt_not_eq; Lra.lra.
 Qed.
 
 (* (5) REFUTED clause ("whatever other operators, differentiable or not, occur"): operators applied
